@@ -69,6 +69,7 @@ Example C02_reset_default_refuted :
   map obs_code (run_ops c fx m [ORoot; OReset false; ORoot; ORoot]) = [1; 67108864; 1; 1] /\
   handed_sum [ORoot; ORoot] (skipn 2 (run_ops c fx m [ORoot; OReset false; ORoot; ORoot])) = 16.
 Proof. exact reset_default_refuted. Qed.
+Print Assumptions C02_reset_default_refuted.
 
 (* each single API call (other than a walk): budget + handed-out size is conserved exactly,
    or the call is a refused dereference: an error, and the budget is 0 afterwards *)
@@ -154,6 +155,14 @@ Theorem C02_canread_terminates : forall sched cf cf', exec cf sched = Some cf' -
   Z.of_nat (length sched) + measure cf' <= measure cf.
 Proof. exact canread_terminates. Qed.
 Print Assumptions C02_canread_terminates.
+(* the measure is never negative, so a schedule has at most [measure cf] steps *)
+Theorem C02_measure_nonneg : forall cf, 0 <= measure cf.
+Proof. exact measure_nonneg. Qed.
+Print Assumptions C02_measure_nonneg.
+Theorem C02_schedule_length_bound : forall sched cf cf', exec cf sched = Some cf' ->
+  Z.of_nat (length sched) <= measure cf.
+Proof. exact schedule_length_bound. Qed.
+Print Assumptions C02_schedule_length_bound.
 Theorem C02_rlimit_changes_only_by_return : forall cf tid cf', cstep cf tid = Some cf' ->
   c_rlimit cf' <> c_rlimit cf -> npending cf' = npending cf - 1.
 Proof. exact rlimit_changes_only_by_return. Qed.
@@ -173,10 +182,8 @@ Example C02_cyclic_walk_bounded :
   msg_ok cyc_msg /\ tree_nofuel (ac_val a) = true /\
   ac_val a = TStruct [] [TComp 1 (mkOS 0 1) [TStruct [] [TErr]]] /\
   deref_count (fst r) + ac_d a = 2 /\ deref_size (fst r) + ac_h a = 16.
-Proof.
-  split; [repeat constructor; cbn; try lia; unfold maxSegmentSize; lia|].
-  vm_compute. repeat split.
-Qed.
+Proof. exact cyclic_walk_bounded_example. Qed.
+Print Assumptions C02_cyclic_walk_bounded.
 
 Example C02_depth_prefix_refuted :
   let c := mkCfg 0 2 true true in
@@ -185,6 +192,7 @@ Example C02_depth_prefix_refuted :
   p_valid (handle st 5) = true /\ lvl_of (run_lvl cyc_ops) 5 = 4 /\
   p_depth (handle st 5) = 18446744073709551612.
 Proof. exact (proj2 depth_prefix_refuted). Qed.
+Print Assumptions C02_depth_prefix_refuted.
 
 (* ================================================================== recursive consumers *)
 (* "every recursive consumer uses time and stack bounded by T and D": Equal, Canonicalize and
@@ -217,6 +225,7 @@ Example C02_equal_fuel_tight :
   fst (fst (run_equal 3 c c fx eq_deep_msg [] eq_deep_msg [] true SelRoot SelRoot)) = EFuel /\
   fst (fst (run_equal 4 c c fx eq_deep_msg [] eq_deep_msg [] true SelRoot SelRoot)) = EOk true.
 Proof. exact equal_fuel_tight. Qed.
+Print Assumptions C02_equal_fuel_tight.
 
 (* deep copy: from fuel 2 * (depth budget) + 3 on (2D + 1 for a pointer read under depth
    limit D) the result does not depend on the fuel: no error is a fuel artefact *)
